@@ -109,6 +109,8 @@ struct Ctx {
     foreign_token: Vec<u8>,
     /// (key label, salt label, seq) -> (value label, signature) of valid items sent so far in this behaviour
     sigs: HashMap<(String, String, i64), (String, [u8; 64])>,
+    /// real seq = seq_base + abstract seq (order preserving): behaviours run at 0, at i64::MIN, just below i64::MAX and across 0
+    seq_base: i64,
 }
 
 fn target_of_label(ctx: &mut Ctx, t: &Value) -> [u8; 20] {
@@ -185,7 +187,7 @@ fn concretise(ctx: &mut Ctx, r: &mut Value, step: usize, rng: &mut Rng) -> Optio
         "get" => {
             let t = target_of_label(ctx, &r["t"].clone());
             let seqf = r["seqf"].as_i64().unwrap_or(-1);
-            krpc::get_value(tid, &me, &t, if seqf >= 0 { Some(seqf) } else { None }, false)
+            krpc::get_value(tid, &me, &t, if seqf >= 0 { Some(ctx.seq_base + seqf) } else { None }, false)
         }
         "getpeers" | "getspeers" => {
             let t = target_of_label(ctx, &r["t"].clone());
@@ -216,19 +218,20 @@ fn concretise(ctx: &mut Ctx, r: &mut Value, step: usize, rng: &mut Rng) -> Optio
             ctx.keys.insert(hex(&pk), kl.clone());
             ctx.vals.insert(hex(&bytes), val.clone());
             let t = target_of_label(ctx, &json!(["m", tkl, salt_l]));
-            let seq = r["seq"].as_i64().unwrap_or(0);
+            let aseq = r["seq"].as_i64().unwrap_or(0);
+            let seq = ctx.seq_base + aseq;
             let cas = r["cas"].as_i64().unwrap_or(-1);
             let mut sig = crypto::sign_mutable(&sk, seq, &bytes, salt.as_deref());
-            let replayable = ctx.sigs.get(&(kl.clone(), salt_l.clone(), seq)).filter(|(v0, _)| *v0 != val).map(|x| x.1);
+            let replayable = ctx.sigs.get(&(kl.clone(), salt_l.clone(), aseq)).filter(|(v0, _)| *v0 != val).map(|x| x.1);
             if r["sigok"].as_bool().unwrap_or(true) {
-                ctx.sigs.insert((kl.clone(), salt_l.clone(), seq), (val.clone(), sig));
+                ctx.sigs.insert((kl.clone(), salt_l.clone(), aseq), (val.clone(), sig));
             } else if let (Some(old), true) = (replayable, rng.chance(2, 3)) {
                 // the genuine signature of ANOTHER value with the same key, salt and seq (possibly the stored one)
                 sig = old;
             } else {
                 match rng.below(4) {
                     0 => sig[rng.below(64) as usize] ^= 1 << rng.below(8),
-                    1 => sig = crypto::sign_mutable(&sk, seq + 1, &bytes, salt.as_deref()),
+                    1 => sig = crypto::sign_mutable(&sk, seq.wrapping_add(1), &bytes, salt.as_deref()),
                     2 => sig = crypto::sign_mutable(&crypto::keypair(77), seq, &bytes, salt.as_deref()),
                     _ => sig = crypto::sign_mutable(&sk, seq, &bytes, Some(b"another salt")),
                 }
@@ -243,7 +246,7 @@ fn concretise(ctx: &mut Ctx, r: &mut Value, step: usize, rng: &mut Rng) -> Optio
                 &pk,
                 &sig,
                 seq,
-                if cas >= 0 { Some(cas) } else { None },
+                if cas >= 0 { Some(ctx.seq_base + cas) } else { None },
                 salt.as_deref(),
             )
         }
@@ -330,7 +333,7 @@ fn abstract_reply(ctx: &mut Ctx, req_kind: &str, reply: Option<&Msg>) -> (Value,
         o["k"] = json!(ctx.keys.get(&hex(kb)).cloned().unwrap_or(format!("?{}", hex(kb))));
     }
     if let Some(s) = m.arg_int("seq") {
-        o["seq"] = json!(s as i64);
+        o["seq"] = json!((s as i64).wrapping_sub(ctx.seq_base));
     }
     if kind == "peers" {
         let mut ps = vec![];
@@ -369,7 +372,7 @@ fn abstract_reply(ctx: &mut Ctx, req_kind: &str, reply: Option<&Msg>) -> (Value,
 fn projection(ctx: &Ctx, snap: &v::ServerSnap) -> Value {
     json!({
         "imm": snap.immutable.iter().map(|h| label_of_target(ctx, h)).collect::<Vec<_>>(),
-        "mut": snap.mutable.iter().map(|(h, s)| json!([label_of_target(ctx, h), s])).collect::<Vec<_>>(),
+        "mut": snap.mutable.iter().map(|(h, s)| json!([label_of_target(ctx, h), s.wrapping_sub(ctx.seq_base)])).collect::<Vec<_>>(),
         "peers": snap.peers.iter().map(|(h, n)| json!([label_of_target(ctx, h), n])).collect::<Vec<_>>(),
         "sp": snap.signed_peers.iter().map(|(h, n)| json!([label_of_target(ctx, h), n])).collect::<Vec<_>>(),
     })
@@ -413,6 +416,12 @@ pub fn replay(b: &Value, out: &mut Out, seed: u64) -> (u64, bool, bool) {
         tokens: vec![],
         foreign_token: vec![],
         sigs: HashMap::new(),
+        seq_base: match b["b"].as_u64().unwrap_or(0) % 4 {
+            1 => i64::MIN,
+            2 => i64::MAX - 8,
+            3 => -2,
+            _ => 0,
+        },
     };
     {
         let q = krpc::get_value(1, &nid("requester"), &[7u8; 20], None, false).encode();
